@@ -580,6 +580,7 @@ impl Run {
         let seed = self.seed;
         let part_hash = hash_of(&(id, name));
         let watchdog = self.watchdog_secs;
+        let slow_ms: Option<u64> = std::env::var("VERIF_SLOW_MS").ok().and_then(|v| v.parse().ok());
         let (max_shrink_ms, max_shrink_iters) = (self.max_shrink_ms, self.max_shrink_iters);
         let running: Vec<Mutex<Option<(Instant, String)>>> = (0..workers).map(|_| Mutex::new(None)).collect();
         let finished = std::sync::atomic::AtomicUsize::new(0);
@@ -647,7 +648,13 @@ impl Run {
                             if watchdog.is_some() {
                                 *my_slot.lock().unwrap() = Some((Instant::now(), serde_json::to_string(&case).unwrap_or_default()));
                             }
+                            let t_case = Instant::now();
                             let outcome = run_case(f, &case, &mut s);
+                            if let Some(limit) = slow_ms {
+                                if t_case.elapsed().as_millis() as u64 > limit {
+                                    eprintln!("slow case ({} ms) in part {part_name}: {}", t_case.elapsed().as_millis(), serde_json::to_string(&case).unwrap_or_default());
+                                }
+                            }
                             if watchdog.is_some() {
                                 *my_slot.lock().unwrap() = None;
                             }
